@@ -306,6 +306,23 @@ STMT_TOKEN_PAIRS = [
 ]
 STMT_WHOLE = [("Assignment", ""), ("LocalAssignment", ""), ("FunctionCall", ""), ("If", ""), ("TypeDeclaration", LU_), ("TypeFunction", LU_)]
 STMT_NODE_SPEC = "".join(node_specs(ty, pre, [(lf, lt, "ref"), (tf, tt, "ref")], cfg=cfg, rest=True) for _, ty, pre, lf, lt, tf, tt, cfg in STMT_TOKEN_PAIRS) + """
+#[verifier::external_type_specification] #[verifier::external_body] pub struct ExFunctionName(full_moon::ast::FunctionName);
+// ---- FunctionName: `a.b.c` or `a.b:m` ----
+pub uninterp spec fn fname_names(n: &full_moon::ast::FunctionName) -> Punctuated<TokenReference>;
+pub uninterp spec fn fname_method(n: &full_moon::ast::FunctionName) -> Option<(TokenReference, TokenReference)>;   // the colon and the method name
+pub assume_specification [full_moon::ast::FunctionName::names] (n: &full_moon::ast::FunctionName) -> (r: &Punctuated<TokenReference>) ensures *r == fname_names(n);
+pub assume_specification [full_moon::ast::FunctionName::method_name] (n: &full_moon::ast::FunctionName) -> (r: Option<&TokenReference>) ensures (r is Some) == (fname_method(n) is Some), r is Some ==> *r->Some_0 == fname_method(n)->Some_0.1;
+pub assume_specification [full_moon::ast::FunctionName::method_colon] (n: &full_moon::ast::FunctionName) -> (r: Option<&TokenReference>) ensures (r is Some) == (fname_method(n) is Some), r is Some ==> *r->Some_0 == fname_method(n)->Some_0.0;
+pub assume_specification [full_moon::ast::FunctionName::with_names] (n: full_moon::ast::FunctionName, v: Punctuated<TokenReference>) -> (r: full_moon::ast::FunctionName) ensures fname_names(&r) == v, fname_method(&r) == fname_method(&n);
+pub assume_specification [full_moon::ast::FunctionName::with_method] (n: full_moon::ast::FunctionName, v: Option<(TokenReference, TokenReference)>) -> (r: full_moon::ast::FunctionName) ensures fname_method(&r) == v, fname_names(&r) == fname_names(&n);
+pub assume_specification [<full_moon::ast::FunctionName as Clone>::clone] (n: &full_moon::ast::FunctionName) -> (r: full_moon::ast::FunctionName) ensures r == *n;
+// the first name gets the leading trivia; the last token is the method name if there is one, the last name otherwise
+pub open spec fn fname_post(s: &full_moon::ast::FunctionName, l: FormatTriviaType, t: FormatTriviaType, r: &full_moon::ast::FunctionName) -> bool {
+    match fname_method(s) {
+        Some(m) => fname_names(s).ul_post(l, &fname_names(r)) && fname_method(r) is Some && fname_method(r)->Some_0.0 == m.0 && m.1.utt_post(t, &fname_method(r)->Some_0.1),
+        None => fname_method(r) is None && exists|mid: Punctuated<TokenReference>| fname_names(s).ul_post(l, &mid) && #[trigger] mid.utt_post(t, &fname_names(r)),
+    }
+}
 #[cfg(feature = "luau")] #[verifier::external_type_specification] #[verifier::external_body] pub struct ExTypeSpecifier(full_moon::ast::luau::TypeSpecifier);
 #[cfg(feature = "lua54")] #[verifier::external_type_specification] #[verifier::external_body] pub struct ExAttribute(full_moon::ast::lua54::Attribute);
 // ---- LocalAssignment: which part carries the statement's last token depends on what the statement has ----
@@ -385,6 +402,7 @@ def stmt_post():
         arms.append(f"            {cfg}(Stmt::{v}(a), Stmt::{v}(b)) => {pre}_{lf}(&a).ul_post(l, &{pre}_{lf}(&b)) && {pre}_{tf}(&a).utt_post(t, &{pre}_{tf}(&b)) && {pre}_rest(&b) == {pre}_rest(&a),")
     return ("    open spec fn ut_post(&self, l: FormatTriviaType, t: FormatTriviaType, r: &Self) -> bool {\n        match (*self, *r) {\n" + "\n".join(arms) + "\n            _ => false,\n        }\n    }\n")
 IMPL_SPECS["Stmt"] = stmt_post()
+IMPL_SPECS["FunctionName"] = "    open spec fn ut_post(&self, l: FormatTriviaType, t: FormatTriviaType, r: &Self) -> bool { fname_post(self, l, t, r) }\n"
 IMPL_SPECS["LocalAssignment"] = "    open spec fn ut_post(&self, l: FormatTriviaType, t: FormatTriviaType, r: &Self) -> bool { la_post(self, l, t, r) }\n"
 IMPL_SPECS["Attribute"] = "    open spec fn ut_post(&self, l: FormatTriviaType, t: FormatTriviaType, r: &Self) -> bool { attr_brackets(*self).ut_post(l, t, &attr_brackets(*r)) && attr_rest(*r) == attr_rest(*self) }\n"
 IMPL_SPECS.update({
@@ -658,6 +676,9 @@ impl UpdateTrailingTrivia for Prefix {
         macro_impl("Assignment"),
         macro_impl("Return"),
         Raw(STMT_NODE_SPEC, module=M),
+        macro_impl("FunctionName", edits=[
+            Hole("let names = this\n            .names()\n            .update_leading_trivia(leading)\n            .update_trailing_trivia(trailing);", "let vx_mid = this\n            .names()\n            .update_leading_trivia(leading);\n        let names = vx_mid\n            .update_trailing_trivia(trailing);\n        proof { assert(fname_names(this).ul_post(leading, &vx_mid) && vx_mid.utt_post(trailing, &names)); }", kind="ghost-name", why="the intermediate list gets a name for the proof hint (a `let` splits the method chain; no executable effect)"),
+        ]),
         macro_impl("Attribute", attrs='#[cfg(feature = "lua54")]\n'),
         macro_impl("LocalAssignment", edits=[
             Hole('cfg_if::cfg_if!(\n            if #[cfg(feature = "luau")] {', '#[cfg(feature = "luau")] {', kind="rewrite", why="cfg_if! with one branch, written as the cfg attribute on a block it stands for"),
@@ -712,4 +733,4 @@ LABELS = {
     "C03.token_both_proxy": dict(props=["C01", "C02", "C03"], text="what the other units assume about update_trivia on a token follows from the verified implementation"),
 }
 
-UNIT = Unit("trivia", items() + [VERIF_MOD], LABELS, macros=[(TRV, "binop_trivia")], feature_sets=("default", "all", "luau", "luajit"), header=HEADER + "use full_moon::ast::punctuated::Pair;\nuse full_moon::ast::Parameter;\n#[cfg(feature = \"lua54\")] use full_moon::ast::lua54::Attribute;\n")
+UNIT = Unit("trivia", items() + [VERIF_MOD], LABELS, macros=[(TRV, "binop_trivia")], feature_sets=("default", "all", "luau", "luajit"), header=HEADER + "use full_moon::ast::punctuated::Pair;\nuse full_moon::ast::Parameter;\nuse full_moon::ast::FunctionName;\n#[cfg(feature = \"lua54\")] use full_moon::ast::lua54::Attribute;\n")
